@@ -22,41 +22,78 @@ import (
 //	op [5]             BDP ping: trInFlow.reset()                       obs [connWU, snap...]
 //	snap = limit, pendingData, pendingUpdate, delta, conn limit, conn unacked, uint32(t.initialWindowSize)
 type vInFlowSim struct {
-	t         *http2Server
-	s         *ServerStream
+	cb        *controlBuffer
+	tfc       *trInFlow
+	sfc       *inFlow
 	done      chan struct{}
 	connItems int64 // connection-level outgoingWindowUpdate items seen by the last drain
+	client    bool
+	// the transport's own methods (server or client side)
+	handleData        func(*parsedDataFrame)
+	requestRead       func(int)
+	updateWindow      func(int)
+	updateFlowControl func(uint32)
+	iws               func() uint32
+	alive             func() bool
 }
 
+// cfg = [stream window, connection window] (server) or [.., .., side] with side 1 = client.
 func vInFlowNew(cfg []int64) *vInFlowSim {
 	var l, cl uint32
-	if len(cfg) == 2 {
+	if len(cfg) >= 2 {
 		l, cl = uint32(cfg[0]), uint32(cfg[1])
 	}
 	done := make(chan struct{})
+	pool := mem.DefaultBufferPool()
+	if len(cfg) == 3 && cfg[2] == 1 {
+		t := &http2Client{
+			controlBuf:        newControlBuffer(done),
+			fc:                &trInFlow{limit: cl},
+			initialWindowSize: int32(l),
+			activeStreams:     make(map[uint32]*ClientStream),
+			bufferPool:        pool,
+		}
+		s := &ClientStream{
+			Stream:     Stream{id: 1, fc: inFlow{limit: l}},
+			ct:         t,
+			done:       make(chan struct{}),
+			headerChan: make(chan struct{}),
+		}
+		s.Stream.buf.init(pool)
+		t.activeStreams[1] = s
+		return &vInFlowSim{cb: t.controlBuf, tfc: t.fc, sfc: &s.fc, done: done, client: true,
+			handleData: t.handleData, requestRead: s.requestRead, updateWindow: s.updateWindow,
+			updateFlowControl: t.updateFlowControl,
+			iws:               func() uint32 { return uint32(t.initialWindowSize) },
+			alive:             func() bool { return t.activeStreams[1] != nil }}
+	}
 	t := &http2Server{
 		done:              done,
 		controlBuf:        newControlBuffer(done),
 		fc:                &trInFlow{limit: cl},
 		initialWindowSize: int32(l),
 		activeStreams:     make(map[uint32]*ServerStream),
-		bufferPool:        mem.DefaultBufferPool(),
+		bufferPool:        pool,
 	}
 	s := &ServerStream{
 		Stream: Stream{id: 1, fc: inFlow{limit: l}},
 		st:     t,
 		cancel: func() {},
 	}
-	s.Stream.buf.init(t.bufferPool)
+	s.Stream.buf.init(pool)
 	t.activeStreams[1] = s
-	return &vInFlowSim{t: t, s: s, done: done}
+	return &vInFlowSim{cb: t.controlBuf, tfc: t.fc, sfc: &s.fc, done: done,
+		handleData: t.handleData, requestRead: s.requestRead, updateWindow: s.updateWindow,
+		updateFlowControl: t.updateFlowControl,
+		iws:               func() uint32 { return uint32(t.initialWindowSize) },
+		alive:             func() bool { _, ok := t.activeStreams[1]; return ok }}
 }
 
 // drain empties the control buffer and classifies what the loopy writer would send.
 func (m *vInFlowSim) drain() (connWU, streamWU, rstFC, settings int64) {
 	m.connItems = 0
 	for {
-		it, err := m.t.controlBuf.get(false)
+		it, err := m.cb.get(false)
 		if err != nil || it == nil {
 			return
 		}
@@ -69,6 +106,9 @@ func (m *vInFlowSim) drain() (connWU, streamWU, rstFC, settings int64) {
 				streamWU += int64(v.increment)
 			}
 		case *cleanupStream:
+			if v.onWrite != nil {
+				v.onWrite() // what loopy's cleanupStreamHandler does (the client deletes the stream here)
+			}
 			if v.rst && v.rstCode == http2.ErrCodeFlowControl {
 				rstFC = 1
 			} else {
@@ -85,14 +125,9 @@ func (m *vInFlowSim) drain() (connWU, streamWU, rstFC, settings int64) {
 }
 
 func (m *vInFlowSim) snap() []int64 {
-	f := &m.s.fc
+	f := m.sfc
 	return []int64{int64(f.limit), int64(f.pendingData), int64(f.pendingUpdate), int64(f.delta),
-		int64(m.t.fc.limit), int64(m.t.fc.unacked), int64(uint32(m.t.initialWindowSize))}
-}
-
-func (m *vInFlowSim) alive() bool {
-	_, ok := m.t.activeStreams[1]
-	return ok
+		int64(m.tfc.limit), int64(m.tfc.unacked), int64(m.iws())}
 }
 
 var vInFlowZeros = make([]byte, 1<<24)
@@ -119,29 +154,29 @@ func (m *vInFlowSim) apply(op []int64) []int64 {
 		if pad > 0 {
 			f.FrameHeader.Flags |= http2.FlagDataPadded
 		}
-		m.t.handleData(f)
+		m.handleData(f)
 		cwu, swu, rst, _ := m.drain()
 		return vCat([]int64{cwu, rst, swu}, m.snap())
 	case op[0] == 2 && len(op) == 2:
 		if !m.alive() {
 			return vCat([]int64{0}, m.snap())
 		}
-		m.s.requestRead(int(uint32(op[1])))
+		m.requestRead(int(uint32(op[1])))
 		_, swu, _, _ := m.drain()
 		return vCat([]int64{swu}, m.snap())
 	case op[0] == 3 && len(op) == 2:
 		if !m.alive() {
 			return vCat([]int64{0}, m.snap())
 		}
-		m.s.updateWindow(int(uint32(op[1])))
+		m.updateWindow(int(uint32(op[1])))
 		_, swu, _, _ := m.drain()
 		return vCat([]int64{swu}, m.snap())
 	case op[0] == 4 && len(op) == 2:
-		m.t.updateFlowControl(uint32(op[1]))
+		m.updateFlowControl(uint32(op[1]))
 		cwu, _, _, set := m.drain()
 		return vCat([]int64{cwu, m.connItems, set}, m.snap())
 	case op[0] == 5 && len(op) == 1:
-		w := m.t.fc.reset()
+		w := m.tfc.reset()
 		return vCat([]int64{int64(w)}, m.snap())
 	}
 	return nil
@@ -164,13 +199,18 @@ func vInFlowExec(cfg []int64, ops [][]int64) ([][]int64, bool, []string) {
 				nt = true
 			}
 		}
-		if m.s.fc.delta > 0 {
+		if m.sfc.delta > 0 {
 			tag["delta>0"] = true
 			nt = true
 		}
 		if len(op) == 2 && op[0] == 4 {
 			tag["bdp"] = true
 		}
+	}
+	if m.client {
+		tag["client"] = true
+	} else {
+		tag["server"] = true
 	}
 	var tags []string
 	for k := range tag {
@@ -248,6 +288,20 @@ func vInFlowGen(r *vRand, tier string, idx int) ([]int64, [][]int64) {
 	case 5:
 		// BDP estimate equal to the configured connection window: increment 0
 		return []int64{65535, 131070}, [][]int64{{4, 131070}, {5}}
+	case 8:
+		// cases 3 and 4 on the client's updateFlowControl
+		return []int64{65535, 1 << 20, 1}, [][]int64{{1, 16384, 0}, {4, 131070}, {1, 16384, 0}}
+	case 9:
+		return []int64{1 << 20, 65535, 1}, [][]int64{{1, 200000, 0}, {2, 200000}, {3, 200000}, {4, 131070}, {2, 5}, {5}}
+	case 6, 7:
+		// padding-only PADDED DATA frames (Length = 1 + padLen, no payload) on the client / server:
+		// the whole frame is charged by onData and must be credited back by the transport itself
+		var ops [][]int64
+		for i := 0; i < 80; i++ {
+			ops = append(ops, []int64{1, 256, 256})
+		}
+		ops = append(ops, []int64{2, 5}, []int64{1, 1, 1}, []int64{1, 6, 1}, []int64{3, 5})
+		return []int64{65535, 65535, int64(7 - idx)}, ops
 	}
 	// configuration
 	var l, cl int64
@@ -266,7 +320,10 @@ func vInFlowGen(r *vRand, tier string, idx int) ([]int64, [][]int64) {
 	default:
 		l, cl = 65535, 65535
 	}
-	cfg := []int64{l, cl}
+	cfg := []int64{l, cl, int64(idx % 2)} // odd cases run on the client transport
+	if idx%8 == 7 {
+		cfg[2] = int64((idx / 8) % 2)
+	}
 	g := &vInFlowGenState{m: vInFlowNew(cfg), adv: l, lim: l}
 	defer close(g.m.done)
 	nops := 120
@@ -352,10 +409,10 @@ func vInFlowGen(r *vRand, tier string, idx int) ([]int64, [][]int64) {
 			if r.Chance(12) {
 				// what bdpEstimator really produces first: a value near 2*65535, whatever is configured
 				g.do([]int64{4, 86506 + r.I64n(200000)})
-			} else if g.lim < 1<<24 && g.m.t.fc.limit < 1<<24 && r.Chance(60) {
+			} else if g.lim < 1<<24 && g.m.tfc.limit < 1<<24 && r.Chance(60) {
 				lo := g.lim
-				if int64(g.m.t.fc.limit) > lo {
-					lo = int64(g.m.t.fc.limit)
+				if int64(g.m.tfc.limit) > lo {
+					lo = int64(g.m.tfc.limit)
 				}
 				n := lo + 1 + r.I64n(vInFlowMin(2*lo, 1<<24)-lo)
 				if n > 1<<24 {
